@@ -12,6 +12,11 @@ LEVEL_NOTE = "thin claim: necessary structural conditions; the known C03 defects
 
 
 def run(ctx):
+    from . import guardvocab
+    guardvocab.G0(ctx, effects={'release', 'join', 'acquire'})
+    guardvocab.G1(ctx, effects={'release', 'join', 'acquire'})
+    guardvocab.G2(ctx, scopes=('rt::atomic::', 'rt::synchronize::', 'rt::vv::'))
+    guardvocab.G3(ctx, scopes=('rt::atomic::', 'rt::synchronize::', 'rt::vv::', 'sync::atomic::'))
     g_sync.run_all(ctx, ["Y1:atomic", "Y3", "Y4", "O5"])
     from . import atomics
     atomics.M1(ctx)
@@ -19,5 +24,7 @@ def run(ctx):
     atomics.M3(ctx)
     atomics.M4(ctx)
     atomics.M5(ctx)
+    atomics.R1(ctx)
+    atomics.N5(ctx)
     atomics.M5b(ctx)
     atomics.M6(ctx)
